@@ -2,6 +2,7 @@ package c02
 
 import (
 	"fmt"
+	"os"
 	"strings"
 
 	"verifharness/internal/core"
@@ -30,6 +31,16 @@ var hoistProbes = []hoistProbe{
 		return []string{"c3"}
 	}},
 	{"HTextInIf", "if b0 {\n\t\t{ trS(\"x1\", s0) }\n\t}\n\t{ trS(\"x2\", s1) }", func(b0 bool) []string { return append(iff(b0, "x1"), "x2") }},
+}
+
+// hoistBaseline: per probe and argument, the trace of the two recorded defects (DESIGN 11.3, C02 known findings).
+var hoistBaseline = map[string]struct{ trace, shape string }{
+	"HClassUnderCond/false":  {"c1", "class-or-script-expr-under-conditional-attr-evaluated-unconditionally"},
+	"HScriptUnderCond/false": {"o1", "class-or-script-expr-under-conditional-attr-evaluated-unconditionally"},
+	"HElseBranch/true":       {"c3,t2", "class-or-script-expr-under-conditional-attr-evaluated-unconditionally"},
+	"HScriptUnderCond/true":  {"o1,o1", "script-attr-expr-evaluated-twice"},
+	"HScriptPlain/false":     {"o2,o2", "script-attr-expr-evaluated-twice"},
+	"HScriptPlain/true":      {"o2,o2", "script-attr-expr-evaluated-twice"},
 }
 
 func iff(c bool, k string) []string {
@@ -81,37 +92,15 @@ func hoistFamily(c *core.Ctx) {
 			continue
 		}
 		ok = false
+		if os.Getenv("C02_DEBUG") != "" {
+			fmt.Fprintf(os.Stderr, "C02_DEBUG hoist %s b0=%v got=%v want=%v\n", p.name, k.Args.B0, got, want)
+		}
+		// A known-finding shape is granted only to the EXACT trace the unrepaired generator produces on this very probe
+		// (hoisted evaluation in front of the element, then the evaluation in place): any other wrong trace - a third
+		// evaluation, another expression evaluated, a different order - is reported as a violation of its own.
 		shape := "evaluation-trace-differs"
-		underCond := strings.Contains(p.body, "if b0 {") && (strings.Contains(p.body, "class={") || strings.Contains(p.body, "onclick={"))
-		script := strings.Contains(p.body, "onclick={")
-		dedup := func(xs []string) []string {
-			seen := map[string]bool{}
-			var r []string
-			for _, x := range xs {
-				if !seen[x] {
-					seen[x] = true
-					r = append(r, x)
-				}
-			}
-			return r
-		}
-		subset := func(a, b []string) bool { // every element of a occurs in b
-			m := map[string]bool{}
-			for _, x := range b {
-				m[x] = true
-			}
-			for _, x := range a {
-				if !m[x] {
-					return false
-				}
-			}
-			return true
-		}
-		switch {
-		case script && strings.Join(dedup(got), ",") == strings.Join(want, ","):
-			shape = "script-attr-expr-evaluated-twice"
-		case underCond && subset(want, got) && len(dedup(got)) > len(want):
-			shape = "class-or-script-expr-under-conditional-attr-evaluated-unconditionally"
+		if b, known := hoistBaseline[fmt.Sprintf("%s/%v", p.name, k.Args.B0)]; known && strings.Join(got, ",") == b.trace {
+			shape = b.shape
 		}
 		c.Fail("property", "expressions are evaluated only where control flow reaches them, once", shape,
 			map[string]any{"template": p.body, "b0": k.Args.B0, "evaluated": got, "expected": want},
